@@ -60,7 +60,7 @@ func genStream(ch *Chooser) []byte {
 			sb.WriteString(":" + fieldValues[ch.Intn(len(fieldValues), "comment")])
 			sb.WriteString(lineEnds[ch.Intn(len(lineEnds), "eol")])
 		case 3: // long filler crossing buffer sizes
-			sizes := []int{4000, 4090, 4096, 4100, 8192, 20000}
+			sizes := []int{4000, 4090, 4096, 4100, 8192, 20000, 4000, 4096, 33000, 61000}
 			sz := sizes[ch.Intn(len(sizes), "filler size")] + ch.Range(0, 8, "filler jitter")
 			sb.WriteString("data: ")
 			sb.WriteString(strings.Repeat("a", sz))
